@@ -52,6 +52,9 @@ type Thread struct {
 
 	spawns map[string]int
 	Steps  int
+	// DoneStep is maintained by the explorer: the step count at which the thread was
+	// first seen finished (-1 while it runs).
+	DoneStep int
 }
 
 // Access is one entry of the access log (used for the anti-vacuity statistics).
@@ -162,7 +165,7 @@ func GoOpt(site string, opt ThreadOpt, f func()) *Thread {
 		name = fmt.Sprintf("%s#%d", site, len(s.Threads))
 	}
 	t := &Thread{Name: name, ID: len(s.Threads), wake: make(chan struct{}), spawns: map[string]int{},
-		Low: opt.Low, App: opt.App, Daemon: opt.Daemon, sched: s}
+		Low: opt.Low, App: opt.App, Daemon: opt.Daemon, sched: s, DoneStep: -1}
 	s.Threads = append(s.Threads, t)
 	// The thread is born parked: the goroutine below only ever blocks on t.wake first.
 	t.Kind, t.Site, t.Parked = "go", "start:"+site, true
